@@ -196,7 +196,8 @@ def drive(tier):
 def run(tier):
     rep = Report("C11", tier)
     rep.add_mc("MC_Bech32", vlib.run_mc("MC_Bech32", cfg="MC_Bech32_quick" if tier == "quick" else "MC_Bech32"))
-    recs, _ = drive(tier)
+    recs, nsecond, ndiff, _ = vlib.second_pass(drive, tier)
+    rep.cov["second_pass_calls"], rep.cov["second_pass_differing"] = nsecond, ndiff
     mm = vlib.validate("Trace_Bech32", recs)
     rep.apply_mismatches(recs, mm)
     nstr = sum(len(x["in"].get("strings", [1])) for x in recs)
